@@ -521,11 +521,14 @@ def divide_outputs(
                 raise
             i += 1
 
+        # Regular stop. Close inside the try block: if one of the mailboxes was
+        # killed in the meantime its close() raises, and the others must then be
+        # killed too rather than left open forever.
+        for m in mbs_to_kill:
+            m.close()
+
     except Exception as e:
         for m in mbs_to_kill:
             m.kill_from_exception(e, reraise=False)
         if not isinstance(e, MailboxKilled):
             raise
-    else:
-        for m in mbs_to_kill:
-            m.close()
